@@ -63,10 +63,13 @@ func (o op) wire() string {
 	}
 }
 
+// absent marks a missing attribute (Rotate may be negative)
+const absent = -1 << 40
+
 func attrsWire(a [5]int) string {
 	var parts []string
 	for _, v := range a {
-		if v < 0 {
+		if v == absent {
 			parts = append(parts, "n")
 		} else {
 			parts = append(parts, strconv.Itoa(v))
@@ -85,13 +88,53 @@ func progWire(p []op) string {
 	return sb.String()
 }
 
-func encodeAttr(k int, v int) pdf.Object {
+// Box values.  Ids 1..3 are the plain family; ids >= 10 form families of values that are DIFFERENT
+// but coincide under some coarser equivalence: rounding to 0, 1, 2 or 3 decimals, float32 rounding,
+// permuted corners.  An attribute id stands for an exact value; how the value is spelled in the page
+// dictionary (*pdf.Rectangle, array of integers/reals, array of reals) is chosen per page.
+var nearBoxes = map[int][4]float64{
+	10: {0, 0, 595.2756, 841.8898}, // exact A4
+	11: {0, 0, 595.28, 841.89},     // ... rounded to two decimals
+	12: {0, 0, 595.276, 841.89},    // ... to three
+	13: {0, 0, 595, 842},           // ... to none
+	14: {0, 0, float64(float32(595.2756)), float64(float32(841.8898))},
+	15: {0, 0, 500, 500},
+	16: {0, 0, 500.004, 500},
+	17: {0, 0, 500.0004, 500},
+	18: {0, 0, 500.4, 500},
+	19: {0, 0, 500.04, 500},
+	20: {100, 100, 0, 0}, // corners of box 1 (of MediaBox) exchanged
+	21: {0, 100, 100, 0},
+}
+
+var boxIDs = []int{1, 2, 3, 10, 11, 12, 13, 14, 15, 16, 17, 18, 19, 20, 21}
+
+func boxCoords(k, v int) [4]float64 {
+	if c, ok := nearBoxes[v]; ok {
+		return c
+	}
+	if k == kMediaBox {
+		return [4]float64{0, 0, float64(100 * v), 100}
+	}
+	return [4]float64{0, 0, float64(50 * v), 50}
+}
+
+func encodeAttr(k int, v int, spelling int) pdf.Object {
 	switch k {
-	case kMediaBox:
-		return pdf.Array{pdf.Integer(0), pdf.Integer(0), pdf.Integer(100 * v), pdf.Integer(100)}
-	case kCropBox:
-		return pdf.Array{pdf.Integer(0), pdf.Integer(0), pdf.Integer(50 * v), pdf.Integer(50)}
+	case kMediaBox, kCropBox:
+		c := boxCoords(k, v)
+		switch spelling % 3 {
+		case 0:
+			return &pdf.Rectangle{LLx: c[0], LLy: c[1], URx: c[2], URy: c[3]}
+		case 1:
+			return pdf.Array{pdf.Number(c[0]).AsPDF(0), pdf.Number(c[1]).AsPDF(0), pdf.Number(c[2]).AsPDF(0), pdf.Number(c[3]).AsPDF(0)}
+		default:
+			return pdf.Array{pdf.Real(c[0]), pdf.Real(c[1]), pdf.Real(c[2]), pdf.Real(c[3])}
+		}
 	case kRotate:
+		if spelling%3 == 2 {
+			return pdf.Real(v)
+		}
 		return pdf.Integer(v)
 	case kAA:
 		return pdf.Dict{"O": pdf.Integer(v)}
@@ -100,39 +143,60 @@ func encodeAttr(k int, v int) pdf.Object {
 	}
 }
 
+func number(x pdf.Object) (float64, bool) {
+	switch x := x.(type) {
+	case pdf.Integer:
+		return float64(x), true
+	case pdf.Real:
+		return float64(x), true
+	}
+	return 0, false
+}
+
+// decodeAttr maps what was read back to the id of the EXACT value (the writer formats reals
+// with the shortest representation that reads back to the same float64); -2: not a known value.
 func decodeAttr(r pdf.Getter, k int, obj pdf.Object) (int, bool) {
 	x, err := pdf.Resolve(r, obj)
 	if err != nil || x == nil {
-		return -1, false
+		return absent, false
 	}
 	switch k {
 	case kMediaBox, kCropBox:
 		a, ok := x.(pdf.Array)
 		if !ok || len(a) != 4 {
-			return -1, false
+			return -2, true
 		}
-		v, ok := a[2].(pdf.Integer)
-		if !ok {
-			return -1, false
+		var c [4]float64
+		for i := range c {
+			v, ok := number(a[i])
+			if !ok {
+				return -2, true
+			}
+			c[i] = v
 		}
-		if k == kMediaBox {
-			return int(v) / 100, true
+		for _, id := range boxIDs {
+			if boxCoords(k, id) == c {
+				return id, true
+			}
 		}
-		return int(v) / 50, true
+		return -2, true
 	case kRotate:
-		v, ok := x.(pdf.Integer)
-		return int(v), ok
+		v, ok := number(x)
+		if !ok || v != float64(int(v)) {
+			return -2, true
+		}
+		return int(v), true
 	case kAA:
 		d, ok := x.(pdf.Dict)
 		if !ok {
-			return -1, false
+			return -2, true
 		}
 		v, ok := d["O"].(pdf.Integer)
 		return int(v), ok
 	default:
 		d, ok := x.(pdf.Dict)
 		if !ok {
-			return -1, false
+			return -2, true
 		}
 		v, ok := d["V"].(pdf.Integer)
 		return int(v), ok
@@ -142,7 +206,7 @@ func decodeAttr(r pdf.Getter, k int, obj pdf.Object) (int, bool) {
 func dictAttrs(r pdf.Getter, d pdf.Dict) [5]int {
 	var a [5]int
 	for k := range a {
-		a[k] = -1
+		a[k] = absent
 		if obj, ok := d[keyNames[k]]; ok {
 			if v, ok := decodeAttr(r, k, obj); ok {
 				a[k] = v
@@ -452,13 +516,13 @@ func hashStr(h uint64, s string) uint64 {
 
 func pageStr(norm bool, id int, a [5]int) string {
 	show := func(v int) string {
-		if v < 0 {
+		if v == absent {
 			return "n"
 		}
 		return strconv.Itoa(v)
 	}
 	rot := show(a[kRotate])
-	if norm && a[kRotate] < 0 {
+	if norm && a[kRotate] == absent {
 		rot = "0"
 	}
 	return fmt.Sprintf("p%d:%s,%s,%s,%s,%s;", id, show(a[kMediaBox]), show(a[kCropBox]), rot, show(a[kAA]), show(a[kResources]))
@@ -598,8 +662,8 @@ func (t *runner) test(prog []op, old bool, class string) {
 			case 'A':
 				d := pdf.Dict{"Type": pdf.Name("Page"), "VerifID": pdf.Integer(o.page)}
 				for k, val := range o.attrs {
-					if val >= 0 {
-						d[keyNames[k]] = encodeAttr(k, val)
+					if val != absent {
+						d[keyNames[k]] = encodeAttr(k, val, o.page*7+k+t.ncfg)
 					}
 				}
 				err := wr.AppendPageDict(w.Alloc(), d)
@@ -690,7 +754,8 @@ func (t *runner) test(prog []op, old bool, class string) {
 	var gotAttrs [][5]int
 	effN, effRaw := uint64(7), uint64(7)
 	it := pagetree.NewIterator(rd)
-	for _, d := range it.All() {
+	seq := it.All()
+	for _, d := range seq {
 		pid, _ := d["VerifID"].(pdf.Integer)
 		a := dictAttrs(rd, d)
 		gotIDs = append(gotIDs, int(pid))
@@ -700,6 +765,29 @@ func (t *runner) test(prog []op, old bool, class string) {
 	}
 	if it.Err != nil {
 		e.Fail("iterator-error", "Iterator.All fails: "+it.Err.Error(), cs)
+	}
+	// the sequence is a value: abandoning a pass, interleaving GetPage and ranging again
+	// over the same value (or a new one of the same Iterator) must give the same pages
+	{
+		pass := func(s func(func(pdf.Reference, pdf.Dict) bool), stopAfter int) uint64 {
+			h, i := uint64(7), 0
+			for _, d := range s {
+				if i == stopAfter {
+					break
+				}
+				if i == 1 {
+					pagetree.GetPage(rd, len(gotIDs)/2)
+				}
+				pid, _ := d["VerifID"].(pdf.Integer)
+				h = hashStr(h, pageStr(false, int(pid), dictAttrs(rd, d)))
+				i++
+			}
+			return h
+		}
+		pass(seq, len(gotIDs)/2)
+		if pass(seq, -1) != effRaw || len(gotIDs) <= 300 && (pass(seq, -1) != effRaw || pass(it.All(), -1) != effRaw) {
+			e.Fail("iterator-reuse", "ranging again over Iterator.All (after an abandoned pass, with GetPage in between) does not give the same pages", cs)
+		}
 	}
 	numPages, nerr := pagetree.NumPages(rd)
 	if nerr != nil {
@@ -720,7 +808,7 @@ func (t *runner) test(prog []op, old bool, class string) {
 	walk = func(n *rnode) {
 		if !n.isPage {
 			for k, v := range n.attrs {
-				if v >= 0 {
+				if v != absent {
 					e.Dist["hoisted-into-a-Pages-node:"+string(keyNames[k])]++
 					if k == kRotate && v == 0 {
 						e.Dist["hoisted-into-a-Pages-node:Rotate=0"]++
@@ -844,15 +932,15 @@ type gen struct {
 }
 
 func newGen(e *common.Env) *gen {
-	return &gen{e: e, nWr: 1, closed: map[int]bool{}, parent: map[int]int{}, palette: e.Rand.IntN(4)}
+	return &gen{e: e, nWr: 1, closed: map[int]bool{}, parent: map[int]int{}, palette: e.Rand.IntN(7)}
 }
 
 func (g *gen) attrs(old bool) [5]int {
 	R := g.e.Rand
-	a := [5]int{-1, -1, -1, -1, -1}
+	a := [5]int{absent, absent, absent, absent, absent}
 	pick := func(absent int, vals ...int) int {
 		if R.IntN(100) < absent {
-			return -1
+			return -1 << 40
 		}
 		return vals[R.IntN(len(vals))]
 	}
@@ -869,10 +957,22 @@ func (g *gen) attrs(old bool) [5]int {
 		a[kMediaBox] = 1 + x%2
 		a[kCropBox] = pick(20, 1+x%2)
 		a[kRotate] = []int{-1, 0, 90}[x]
-	default:
+	case 3:
 		a[kMediaBox] = pick(30, 1, 2, 3)
 		a[kCropBox] = pick(30, 1, 2, 3)
 		a[kRotate] = pick(25, 0, 90, 180, 270)
+	case 4: // near-equal values: different boxes that agree after rounding; Rotate equal modulo 360
+		a[kMediaBox] = pick(5, 10, 11, 12, 13, 14)
+		a[kCropBox] = pick(30, 15, 16, 17, 18, 19)
+		a[kRotate] = pick(25, 0, 360, -90, 270, 630, 90)
+	case 5: // two near-equal values only (so that a whole group of 16 shares them)
+		a[kMediaBox] = pick(0, 10, 11)
+		a[kCropBox] = pick(0, 15, 16)
+		a[kRotate] = pick(0, 270, -90)
+	default: // corners exchanged, mixed with the plain family
+		a[kMediaBox] = pick(10, 1, 20, 21)
+		a[kCropBox] = pick(40, 2, 20, 21)
+		a[kRotate] = pick(40, 0, 360)
 	}
 	if old || R.IntN(4) == 0 {
 		a[kAA] = pick(30, 1, 2)
@@ -965,7 +1065,7 @@ func randomProgram(e *common.Env, target int, old bool) []op {
 }
 
 // all programs of at most `depth` macro-operations over at most `maxW` writers
-func exhaustive(t *runner, depth int, counts []int, old bool) {
+func exhaustive(t *runner, depth int, counts []int, old bool, palette int) {
 	type macro struct {
 		kind byte
 		n    int
@@ -1011,7 +1111,7 @@ func exhaustive(t *runner, depth int, counts []int, old bool) {
 		}
 	}
 	g := newGen(t.e)
-	g.palette = 1
+	g.palette = palette
 	rec(g, 0)
 }
 
@@ -1079,12 +1179,12 @@ func main() {
 	}
 
 	// exhaustive small programs
-	exhaustive(t, e.Pick(3, 4), []int{1, 16}, false)
-	exhaustive(t, 3, []int{15, 17}, true)
+	exhaustive(t, e.Pick(3, 4), []int{1, 16}, false, 1)
+	exhaustive(t, 3, []int{15, 17}, true, 5)
 
 	// random programs; page counts crossing the powers of the fan-out
 	targets := []int{1, 2, 3, 15, 16, 17, 31, 32, 33, 100, 255, 256, 257, 300, 1000}
-	for i := 0; i < e.Pick(900, 14000); i++ {
+	for i := 0; i < e.Pick(800, 14000); i++ {
 		old := e.Rand.IntN(3) == 0
 		t.test(randomProgram(e, targets[e.Rand.IntN(len(targets))], old), old, "random")
 	}
@@ -1104,6 +1204,6 @@ func main() {
 		"{append 1|15|16|17 pages, new range, close, next-page-number} over <=3 writers, random programs with 1..1000 pages and 4095..5000 pages "+
 		"(bursts, ranges opened at arbitrary positions, closes in any order, operations on closed ranges), root-only documents around 16, 256, 4096; "+
 		"writer configurations: PDF 1.2/1.4/1.7/2.0, HumanReadable, seekable or not, a stream open on the same Writer while the pages are added (documents of <= 15 pages); "+
-		"attribute values from small sets in four palettes (uniform, two-valued, runs, mixed; absent values; explicit Rotate 0); PDF 1.2 (AA inheritable) and 1.7; "+
+		"attribute values from small sets in seven palettes (uniform, two-valued, runs, mixed, near-equal boxes that agree after rounding to 0-3 decimals or to float32, Rotate equal modulo 360, exchanged corners; absent values; explicit Rotate 0), each value spelled as *pdf.Rectangle, array of integers/reals or array of reals; effective values compared exactly; PDF 1.2 (AA inheritable) and 1.7; "+
 		"non-trivial = more than one operation, distinct by program", nil)
 }
